@@ -3,7 +3,8 @@
   in `StorageEngine` (src/storage_engine/mod.rs) over the persist layer's *naming*
   (src/storage/persist/mod.rs), as a step system.
 
-  Names are `List Char`. The three name functions of the code:
+  Names are `List Char`, one `Char` per UTF-8 *byte* of the Rust string (all functions below act on
+  ASCII bytes only; byte order is Rust's `String` order; `len()` is the byte length). The name functions of the code:
     shardName kg rel = kg ++ ":" ++ rel                         mod.rs:478 / 589
     sanitize s       = s with ':' and '/' replaced by '_'       persist/mod.rs:857  (file = shards/<sanitize>.json)
     kgOf shard       = shard.split(':').next()                  mod.rs:1659          (start-up KG discovery)
@@ -33,6 +34,12 @@ abbrev Upd := Tup × Int
 
 def shardName (kg rel : Name) : Name := kg ++ [':'] ++ rel
 def sanitize (s : Name) : Name := s.map (fun c => if c = ':' ∨ c = '/' then '_' else c)
+/-- the metadata file of a shard (persist/mod.rs:322-323 `save_shard_meta`, :658 `delete_shard`):
+    `format!("{}.json", sanitize_name(name))` — the suffix is *appended*, nothing of the name is cut off;
+    the temporary file of the atomic write is `….json.tmp` -/
+def metaFile (shard : Name) : Name := sanitize shard ++ ".json".toList
+def metaTmp (shard : Name) : Name := sanitize shard ++ ".json.tmp".toList
+def shardFile (kg rel : Name) : Name := metaFile (shardName kg rel)
 def kgOf (shard : Name) : Name := shard.takeWhile (fun c => c != ':')
 def hasPrefix (kg shard : Name) : Bool := (kg ++ [':']).isPrefixOf shard
 def relOf (kg shard : Name) : Name := shard.drop (kg.length + 1)
@@ -47,7 +54,7 @@ def hasDotDot : Name → Bool
 /-- `create_knowledge_graph` name validation (mod.rs:169-186) -/
 def validName (n : Name) : Bool :=
   !n.isEmpty && !n.contains '/' && !n.contains '\\' && !n.contains (Char.ofNat 0) &&
-  !hasDotDot n && n != ['.'] && n.length ≤ 128     -- names are ASCII here: bytes = chars
+  !hasDotDot n && n != ['.'] && n.length ≤ 128     -- byte length (MAX_KG_NAME_BYTES)
 
 inductive Op where
   | create (kg : Name)
@@ -115,7 +122,7 @@ def Thread.finish (th : Thread) (out : Out) : Thread :=
 def ensureShard (st : State) (s : Name) : State :=
   match lookup s st.mem with
   | some _ => st
-  | none => { st with mem := st.mem ++ [(s, {})], files := put (sanitize s) (s, []) st.files }
+  | none => { st with mem := st.mem ++ [(s, {})], files := put (metaFile s) (s, []) st.files }
 
 def appendUpd (st : State) (s : Name) (u : Upd) : State :=
   let sh := (lookup s st.mem).getD {}
@@ -129,12 +136,12 @@ def flushShard (st : State) (s : Name) : State :=
     if sh.buffer.isEmpty then st else
     let b := sh.batches ++ sh.buffer
     { st with mem := put s { batches := b, buffer := [] } st.mem,
-              files := put (sanitize s) (s, b) st.files,
+              files := put (metaFile s) (s, b) st.files,
               wal := st.wal.filter (fun e => e.1 != s) }
 
 /-- `delete_shard` (persist/mod.rs:622): map entry, batch files, WAL entries, and the metadata *file* -/
 def deleteShard (st : State) (s : Name) : State :=
-  { st with mem := erase s st.mem, wal := st.wal.filter (fun e => e.1 != s), files := erase (sanitize s) st.files }
+  { st with mem := erase s st.mem, wal := st.wal.filter (fun e => e.1 != s), files := erase (metaFile s) st.files }
 
 /-! ### in-memory relations -/
 def insRel (rels : Rels) (rel : Name) (t : Tup) : Rels × Out :=
